@@ -337,13 +337,9 @@ fn perms_nonroot(n: usize) -> Vec<Vec<usize>> {
     out
 }
 
-/// relabel a shape with π (old index -> new index); None if some edge would point backwards
-fn relabel_shape(n: usize, shape: &[u8], pi: &[usize]) -> Option<Vec<u8>> {
-    let ps = pairs(n);
-    let mut idx = HashMap::new();
-    for (k, p) in ps.iter().enumerate() {
-        idx.insert(*p, k);
-    }
+/// relabel a shape with π (old index -> new index); None if some edge would point backwards.
+/// `ps` = pairs(n), `idx[a][b]` = position of pair (a,b) in `ps`.
+fn relabel_shape(shape: &[u8], pi: &[usize], ps: &[(usize, usize)], idx: &[[usize; 8]; 8]) -> Option<Vec<u8>> {
     let mut out = vec![0u8; shape.len()];
     for (k, (i, j)) in ps.iter().enumerate() {
         if shape[k] == 0 {
@@ -353,7 +349,7 @@ fn relabel_shape(n: usize, shape: &[u8], pi: &[usize]) -> Option<Vec<u8>> {
         if a >= b {
             return None;
         }
-        out[idx[&(a, b)]] = shape[k];
+        out[idx[a][b]] = shape[k];
     }
     Some(out)
 }
@@ -362,12 +358,17 @@ fn relabel_shape(n: usize, shape: &[u8], pi: &[usize]) -> Option<Vec<u8>> {
 /// lexicographically smallest among its valid relabellings; return it with its automorphisms.
 fn canonical_shapes(n: usize, nw: usize) -> Vec<(Vec<u8>, Vec<Vec<usize>>)> {
     let perms = perms_nonroot(n);
+    let ps = pairs(n);
+    let mut idx = [[0usize; 8]; 8];
+    for (k, (a, b)) in ps.iter().enumerate() {
+        idx[*a][*b] = k;
+    }
     shapes(n, nw)
         .into_par_iter()
         .filter_map(|s| {
             let mut auts = vec![];
             for pi in &perms {
-                if let Some(r) = relabel_shape(n, &s, pi) {
+                if let Some(r) = relabel_shape(&s, pi, &ps, &idx) {
                     if r < s {
                         return None;
                     }
